@@ -514,7 +514,8 @@ def r4(k: Kit) -> None:
         rep.floor('C05.R4', f'{tail} sites', len(sites), 1)
         for node, c in sites:
             arg = c.args[pos] if len(c.args) > pos else None
-            rep.check(arg is not None and dotted(arg) == 'self._username',
+            rep.check(arg is not None and dotted(arg) in ('self._username',
+                                                          'username'),
                       'C05.R4', key(fu, f'{tail} user'),
                       'decision made for the connection\'s current user name',
                       f'{tail} is given `{norm(arg) if arg is not None else "?"}`'
@@ -1219,6 +1220,77 @@ def r13(k: Kit) -> None:
     rep.floor('C05.R13', 'trust set stores', n, 3)
 
 
+def r14(k: Kit) -> None:
+    """A request task that was overtaken by a newer request decides nothing."""
+    rep = k.rep
+    rep.rule('C05.R14', '_finish_userauth runs as a task and awaits '
+             'reload_config() and the application\'s begin_auth(); it is '
+             'given the user name of its own request, and every path from '
+             'one of those awaits to send_userauth_success() or to the '
+             'installation of an auth object takes the equal edge of a '
+             'comparison of that name with self._username - a later '
+             'USERAUTH_REQUEST for another user may have changed it while '
+             'the task slept, and "no authentication needed" for the first '
+             'name must not admit the second')
+    fp = k.func(CONN + '_process_userauth_request')
+    fu = k.func(CONN + '_finish_userauth')
+    okp = 'username' in fu.params
+    starts = [c for n, c in k.call_nodes(fp, lambda c: is_call(
+        c, '_finish_userauth', 'self'))]
+    okc = bool(starts) and all(
+        any(dotted(a) == 'username' for a in c.args) for c in starts)
+    rep.check(okp and okc, 'C05.R14', key(fu, 'task knows its own user name'),
+              'the request\'s user name is passed to the task',
+              '_finish_userauth reads the user name from the connection '
+              'when it resumes instead of being handed the name of the '
+              'request it was created for', fu.loc(fu.node))
+    g = k.cfg(fu)
+    awaits = [n for n in g.nodes if n.ast is not None and any(
+        isinstance(x, ast.Await) for r_ in g.node_roots(n)
+        for x in walk_shallow(r_))]
+    sinks = [n for n, c in k.call_nodes(fu, lambda c: is_call(
+        c, 'send_userauth_success', 'self') or is_call(
+            c, 'lookup_server_auth'))]
+    rep.floor('C05.R14', 'decision sites in _finish_userauth', len(sinks), 2)
+
+    def current(x: Node) -> Optional[bool]:
+        a = x.ast
+        if x.kind == 'atom' and isinstance(a, ast.Compare) and \
+                len(a.ops) == 1 and \
+                {dotted(a.left), dotted(a.comparators[0])} == \
+                {'username', 'self._username'}:
+            if isinstance(a.ops[0], ast.Eq):
+                return True
+            if isinstance(a.ops[0], ast.NotEq):
+                return False
+        return None
+    for sk in sinks:
+        bad = None
+        for a in awaits:
+            if a.id == sk.id:
+                # the await of send_userauth_success itself
+                continue
+            for b, lab in g.succ[a.id]:
+                if lab == 'exc':
+                    continue
+                if b != sk.id and g.path(b, sk.id, follow_exc=False) is None:
+                    continue
+                w = [b] if b == sk.id else g.guarded_by(sk.id, current,
+                                                        start=b)
+                if w is not None:
+                    bad = bad or (a, w)
+        rep.check(bad is None, 'C05.R14',
+                  key(fu, f'{norm(sk.ast)[:40]} only for the current request'),
+                  'guarded by username == self._username after every await',
+                  'after awaiting reload_config() / begin_auth() the task '
+                  'goes on to decide for whatever self._username is now: '
+                  'USERAUTH_REQUEST(guest, none) with an asynchronous '
+                  'begin_auth(guest) -> False, overtaken by '
+                  'USERAUTH_REQUEST(root, password, wrong), ends in '
+                  'USERAUTH_SUCCESS for root', k.loc(fu, sk),
+                  g.describe_path(bad[1]) if bad else None)
+
+
 def run(idx, rep, tier):
     k = Kit(idx, rep)
     rep.assumptions += NOT_DECIDED
@@ -1235,3 +1307,4 @@ def run(idx, rep, tier):
     r11(k)
     r12(k)
     r13(k)
+    r14(k)
